@@ -989,6 +989,18 @@ func (x *Exec) evalQuant(env *SpecEnv, e *EQuant) SVal {
 		guards = append(guards, g)
 	}
 	x.quantDepth++
+	// an integer variable j used as s[j] stands for (J - off(s)) where J is the bound absolute index into the
+	// backing array: the access becomes select(A, J) and can serve as a trigger without arithmetic
+	for _, qv := range e.Vars {
+		sv := n.vars[qv.Name]
+		if !isIntT(sv.T) {
+			continue
+		}
+		if off, ok := x.pivotOffset(&n, e.Body, qv.Name); ok && off.S != "0" {
+			J := sv.V.(VScalar).T
+			n.vars[qv.Name] = SVal{VScalar{Term{"(- " + J.S + " " + off.S + ")", SInt}}, sv.T}
+		}
+	}
 	body := x.evalBool(&n, e.Body)
 	var pats []string
 	for _, tr := range e.Trig {
@@ -1214,4 +1226,49 @@ func containsVar(n *sexpr, vars []string) bool {
 		}
 	}
 	return false
+}
+
+// pivotOffset finds the first use s[j] of the bound variable j as a bare index of a slice or string and
+// returns the offset of s (which must not depend on bound variables).
+func (x *Exec) pivotOffset(env *SpecEnv, body Expr, name string) (off Term, ok bool) {
+	var found Expr
+	walkExpr(body, func(n Expr) {
+		if found != nil {
+			return
+		}
+		if ix, isIx := n.(*EIndex); isIx {
+			if id, isId := ix.I.(*EIdent); isId && id.Name == name {
+				found = ix.X
+			}
+		}
+	})
+	if found == nil {
+		return Term{}, false
+	}
+	defer func() {
+		if r := recover(); r != nil {
+			ok = false
+		}
+	}()
+	v := x.eval(env, found)
+	var o Term
+	switch b := v.V.(type) {
+	case VSlice:
+		o = b.Off
+	case VStr:
+		o = b.Off
+	default:
+		return Term{}, false
+	}
+	// the offset must be closed (no bound variables)
+	for vn, vv := range env.vars {
+		_ = vn
+		if sc, isS := vv.V.(VScalar); isS && strings.HasPrefix(sc.T.S, "q.") && strings.Contains(o.S, sc.T.S) {
+			return Term{}, false
+		}
+	}
+	if strings.Contains(o.S, "q.") {
+		return Term{}, false
+	}
+	return o, true
 }
